@@ -726,6 +726,33 @@ def check(ctx, cases, outs):
     fl = [k for k in li if res[k] and "certif" in res[k] and _key(cases[k], outs[k]) not in _ATTR]
     if fl:
         _attribute_batch(ctx, [cases[k] for k in fl], [outs[k] for k in fl])
+    # the hypotheses that the Coq development leaves to the per-instance check, evaluated on every case:
+    # (H-total) the repaired model (Fixed, eps 0 at :202) returns - C01_lapjv_fixed_total is NOT proved;
+    # (H-2cand) every row lists >= 2 candidates - the premise under which C01_lapjv_fixed_optimal is proved.  Where both
+    # hold the theorem says the model's result is optimal: the extracted model is checked against that (a disagreement
+    # would be a bug of extraction / harness, reported as a failure of this check).
+    if li:
+        fm = ctx.run_model("entry_lapjv", [_lap_arg(cases[k], 1, 0, EPS) for k in li])
+        fm = [None if isinstance(m, dict) or m == [] else tuple(m) for m in fm]
+        cert = _certified(ctx, [cases[k] for k in li], fm)
+        for k, m, g in zip(li, fm, cert):
+            rows = {}
+            for t in cases[k]["tri"]:
+                rows[t[0]] = rows.get(t[0], 0) + 1
+            two = min(rows.values()) >= 2
+            ctx.count("hyp:rows>=2-candidates" if two else "hyp:has-one-candidate-row")
+            if m is None:
+                ctx.count("hyp:fixed-model-NO-RESULT(total not proved)")
+                ctx.note("Fixed model returned no result on a generated case (n=%d): hypothesis of C01_lapjv_fixed_optimal not met" % cases[k]["n"])
+                continue
+            ctx.count("hyp:fixed-model-returns")
+            if g:
+                ctx.count("fixed-model-certified" + ("(theorem-covered)" if two else "(one-candidate rows: checker only)"))
+            elif two and res[k] is None:
+                res[k] = ("INTERNAL: the extracted (Fixed, eps 0) model returned a result that cert_ok rejects on an input "
+                          "satisfying the premises of the proved theorem C01_lapjv_fixed_optimal")
+            else:
+                ctx.count("fixed-model-uncertified(one-candidate rows, infinite duals)")
     ti = [k for k, c in enumerate(cases) if c["fn"] == "track" and not _bad(outs[k])]
     oks = ctx.run_model("entry_track_ok", [outs[k]["pairs"] for k in ti]) if ti else []
     pm_args, pm_own = [], []
@@ -877,7 +904,7 @@ def shrink_candidates(case):
 
 MANIFEST = {
     "level_text": (
-        "Machine-checked proofs (Coq 8.16, 46 theorems, all closed under the global context) about (a) the certificate "
+        "Machine-checked proofs (Coq 8.16, 50 theorems, all closed under the global context) about (a) the certificate "
         "checker cert_ok that is run, extracted, on the implementation's own (x, y, u, v): acceptance implies x is a "
         "minimum-cost perfect matching over listed pairs, y its inverse and (u, v) a dual certificate, for every n and every "
         "sparsity pattern; (b) a line-level executable Gallina model of lapjv.py + _lapjv.pyx with switches rt in {AsIs, Fixed}, "
@@ -892,8 +919,12 @@ MANIFEST = {
         "is injective for every permutation, and the identity clause holds at the level of the assignment problem."),
     "level_note": (
         "Not proved: that the Fixed model always returns (a rebuild of scan in augment is never empty - needs the adequacy of "
-        "inf = sum(c) + 1, i.e. every finite reduced-cost distance <= sum(c)); optimality for inputs with single-candidate "
-        "rows (-inf prices) - both covered per instance by the verified checker on every run. Known findings F1 "
+        "inf = sum(c) + 1; with eps 0 in the retry decision it is even false for the model's fuel, C01_lapjv_fixed_eps0_not_total); "
+        "optimality for inputs with single-candidate rows (-inf prices): only the price-update core over InvE and the "
+        "spec-level reserved-block lemma are proved. Both hypotheses are evaluated on every generated case by the check (the "
+        "repaired model returns; rows with >= 2 candidates are theorem-covered, the others checker-only) and both clauses are "
+        "covered per instance by the verified checker on every run. ASan stream of 3 000 has_PM instances (2 044 with a "
+        "one-candidate row): no crash; heap overflows occur only on inputs WITHOUT a perfect matching (outside the quantifier). Known findings F1 "
         "(reduction_transfer row offset) and F6 (eps tie band) are reported as KNOWN-FINDING and decided by model attribution "
         "(impl == AsIs model and the Fixed model satisfies the property on that input), never muted. Trusted: Coq kernel + "
         "vm_compute; extraction (ExtrOcamlBasic only) and the S-expression driver; the Python harness; exactness of float64 "
